@@ -40,6 +40,10 @@ def _spec(draw, tier):
     spec['params']['n_geos_max'] = draw(st.integers(2, max(2, n_g - 1)))
     spec['params']['budget_q'] = None
     spec['params']['share_q'] = None
+  if draw(st.integers(0, 3)) == 0:
+    spec['panel']['dup_rows'] = [[draw(st.integers(0, 5)), draw(st.integers(0, 29)), draw(st.sampled_from([8, 64, 512]))]
+                                 for _ in range(draw(st.integers(1, 3)))]
+    spec['panel']['missing'] = []
   spec['transform'] = {
       'perm_seed': draw(st.integers(1, 10 ** 6)) if draw(st.booleans()) else None,
       'shift': draw(st.sampled_from([0, 0, 1, -1, 7, -7, 365, -400, 3])),
@@ -123,6 +127,8 @@ def run(spec):
   identity = not (tr['perm_seed'] or tr['shift'] or tr['rename'] or tr['k'] or (tr['id_flip'] and all(g.isdigit() for g in spec['panel']['ids'])))
   if spec['panel'].get('mirror'):
     cls.append('tied-impact-pair')
+  if spec['panel'].get('dup_rows'):
+    cls.append('duplicated-rows')
   for name in ('perm_seed', 'shift', 'id_flip', 'rename', 'k'):
     if tr[name]:
       cls.append('tr:' + name)
